@@ -7,7 +7,7 @@ from typing import Callable, Iterable
 
 from .cfg import CFG, Node
 from .excflow import ExcFlow, Profile
-from .loader import PKG, AnalysisError, Func, Program, dotted, walk_expr, walk_own
+from .loader import PKG, AnalysisError, Func, Program, dotted, expand, single_defs, walk_expr, walk_own  # noqa: F401 (re-exported)
 from .report import Checker, norm_stmt
 from .resolve import Resolver
 from .terms import Terms
@@ -153,6 +153,20 @@ class Context:
             d,
         )
         return False
+
+    def deref(self, cfg: CFG, node: Node, expr: ast.AST, depth: int = 6):
+        """Follow a Name through its unique reaching plain assignment to (defining node, defining expression).
+        Anything else (several reaching definitions, a loop/with/unpack target, a parameter) is returned unchanged."""
+        du = self.terms.du(cfg)
+        cur_node, cur = node, expr
+        for _ in range(depth):
+            if not isinstance(cur, ast.Name):
+                break
+            rd = du.reaching(cur_node.id, cur.id)
+            if len(rd) != 1 or rd[0][1].kind != "assign" or rd[0][1].path:
+                break
+            cur_node, cur = cfg.nodes[rd[0][0]], rd[0][1].value
+        return cur_node, cur
 
     def fkey(self, f: Func) -> str:
         return f"{f.module.name}:{f.qualname[len(f.module.name) + 1:]}"
